@@ -8,16 +8,18 @@ def part(test, pkg=".", race=False, q=16, t=16, tq=900, tt=5400, env=None):
 
 PROPS = {
     "C17": {
-        "parts": [part("TestVerifC17", q=16, t=16)],
+        "parts": [part("TestVerifC17", q=16, t=16), part("TestVerifC17Live", q=16, t=16)],
         "level": "exploration",
         "engine": "E7 refmodel",
         "level_text": "Exhaustive runtime evaluation of the candidate priority functions over every TCP offset x type x network x tcptype x relay protocol "
                       "(x 4 components quick / 255 thorough) against an independent reference, plus boundary+random sampling of the pair formula (big-int reference, "
-                      "mirror symmetry, monotonicity) and the foundation iff-law. Exhaustive for the candidate formula, sampled for the 2^64 pair space.",
+                      "mirror symmetry, monotonicity) and the foundation iff-law. Exhaustive for the candidate formula, sampled for the 2^64 pair space. "
+                      "Live part (E1 simnet): two real agents, half of the sessions started in the same role so that a role conflict forces a role switch in mid-session; after every step "
+                      "each listed pair's priority is compared with the formula for the agent's CURRENT role, and after convergence mirrored pairs must carry the same number and order on both agents.",
         "level_note": "Trusts the harness reference formula (written from the property text) and that candidates built through the public constructors with an "
                       "in-package agent pointer behave like gathered ones; the pair space is sampled, not enumerated.",
         "exhaustive": True,
-        "technique": "reference-model monitor over an exhaustive input grid (runtime assertion of the real functions against an independent formula)",
+        "technique": "reference-model monitor over an exhaustive input grid (runtime assertion of the real functions against an independent formula) plus a state-invariant monitor on live two-agent sessions (pair priority vs formula for the current role after every step; mirrored-pair agreement at convergence)",
         "rule": "candidate formula: EVERY TCP offset 0..65535 x {type x network x tcptype x relay protocol} (70 combinations) x components "
                 "{1,2,128,255} (quick) or 1..255 (thorough) is evaluated on the real Priority/TypePreference/LocalPreference through a real Agent; "
                 "pair formula: all pairs of 26 boundary values + PRNG pairs, each compared with a big-integer reference, mirrored view and +1 monotonicity; "
